@@ -14,6 +14,8 @@ Packing (`Sqfs/Spec/PackSpec.lean`, `Sqfs/Model/PackCur.lean`), stateful:
   file <flags> <data-hex>                            → ok
   pack-run <fix|cur>                                 → blocks … frags … files …   (see `showOut`)
   effective <notail 0/1> <B> <size> <flags>          → <flags'>  (option handling of mkfs.c / tar2sqfs)
+  packflags <notail 0/1> <B> <size> <flags>          → <flags'>  (`packFileFlags` of Sqfs/Model/C17Mkfs.lean: the same on the C flag word)
+  flagnames                                          → ok | differ  (the spelled-out flag names of Sort.lean = the source's strings)
   export <n> (<inum> <iref>)×n                       → <iref> …  (ideal export table `exportTable` after these calls, last = root)
   exptbl <off> <n> (<inum> <iref>)×n                 → ok <start> <file-hex> | err <kind>
         the export table as dir_writer.c builds and writes it (`Sqfs/Model/C17Export.lean`: array of capacity 512 that
@@ -41,6 +43,7 @@ import Sqfs.Spec.PackSpec
 import Sqfs.Spec.Directives
 import Sqfs.Model.C17Export
 import Sqfs.Model.C17SortTree
+import Sqfs.Model.C17Mkfs
 namespace Driver.C17
 open Sqfs Sqfs.Sort Sqfs.Pack
 
@@ -234,6 +237,11 @@ def parseEffFiles : List String → Option (List ((Flags × Nat) × FileResult))
 
 def step (s : St) (line : String) : St × String :=
   match words line with
+  | ["flagnames"] => (s, if Sqfs.Sort.flagNamesOk then "ok" else "differ")
+  | ["packflags", nt, b, sz, fl] =>      -- `pack_file` on the C flag word (Sqfs/Model/C17Mkfs.lean)
+    match nt.toNat?, b.toNat?, sz.toNat?, fl.toNat? with
+    | some nt, some b, some sz, some fl => (s, toString (Sqfs.C17Mkfs.packFileFlags (nt != 0) b sz fl))
+    | _, _, _, _ => (s, "bad-op")
   | ["decode", m, h] =>
     match mode? m, fromHexFast h with
     | some t, some raw => (s, opDecode t raw)
